@@ -13,7 +13,7 @@ ALL="C11 C12 C05 C09 C13 C15 C17 C10 C16 C08 C06 C02 C03 C18 C14 C07 C19"
 cd "$REPO" || exit 2
 LIST=$(ls "$VDIR"/seeded/*/patch.diff "$VDIR"/mutants/*.diff)
 [ "${ORDER:-}" = reverse ] && LIST=$(echo "$LIST" | tac)
-[ -n "${ONLY:-}" ] && LIST=$(echo "$LIST" | grep -E "$ONLY")
+[ -n "${ONLY:-}" ] && LIST=$(echo "$LIST" | grep -E -- "$ONLY")
 for P in $LIST; do
   NAME=$(basename "$(dirname "$P")"); [ "$NAME" = mutants ] && NAME=$(basename "$P" .diff)
   git -C "$REPO" checkout -q -- . 2>/dev/null; git -C "$REPO" clean -qfd src 2>/dev/null
